@@ -314,7 +314,7 @@ func (s *Scheme) runDKG(ctx context.Context, membership *membership, dkgProtocol
 
 		s.Logger.Debugf("Running keygen with parties %v", members)
 
-		if err := s.initializeDKG(dkgProtocolInstance, t, UIntsToUniversalIDs(members), membership); err != nil {
+		if err := s.initializeDKG(dkgProtocolInstance, t, UIntsToUniversalIDs(members), parties, membership); err != nil {
 			s.Logger.Errorf("Failed initializing DKG: %v", err)
 			resultChan <- mpcResult{err: err}
 			return
@@ -630,12 +630,12 @@ func (s *Scheme) prepareSigning(membership *membership, parties []PartyID, topic
 	return signingProtocol, signingProtocol.SetShareData(s.StoredData)
 }
 
-func (s *Scheme) initializeDKG(dkg KeyGenerator, threshold int, members []UniversalID, membership *membership) error {
+func (s *Scheme) initializeDKG(dkg KeyGenerator, threshold int, members []UniversalID, parties []PartyID, membership *membership) error {
 	membersWithoutMe := excludeUniversal(members, s.SelfID)
 
 	dkgTopicHash := hash([]byte(DkgTopicName))
 
-	dkg.Init(universalIDsToUInts(members), threshold, func(msg []byte, isBroadcast bool, to uint16) {
+	dkg.Init(partyIDsToUInts(parties), threshold, func(msg []byte, isBroadcast bool, to uint16) {
 		var payload []byte
 		payload = append(payload, 255)
 		payload = append(payload, msg...)
